@@ -7,7 +7,8 @@ use crate::world::{self, Scratch, Val};
 use serde_json::{json, Value};
 use std::collections::BTreeMap;
 
-const SCENARIOS: [&str; 13] = [
+const SCENARIOS: [&str; 16] = [
+    "get_hit_all_levels", "touch_hit_all_levels", "ensure_hit_all_levels",
     "get_hit", "get_miss", "get_hit_last_level", "touch_hit", "touch_miss", "set_new", "set_existing", "put_insert", "put_hit",
     "ensure_hit", "ensure_miss", "ensure_promote", "set_temp_file",
 ];
@@ -84,7 +85,8 @@ fn observe(case: &Case, size: usize) -> Obs {
     let k = key();
     let a = Val::new(0, world::Size::Five);
     let wpath = ops::candidate_dirs(&dirs.write, front, &k)[0].join("key");
-    let in_write = matches!(case.scenario.as_str(), "get_hit" | "touch_hit" | "set_existing" | "put_hit" | "ensure_hit");
+    let everywhere = case.scenario.ends_with("_all_levels");
+    let in_write = everywhere || matches!(case.scenario.as_str(), "get_hit" | "touch_hit" | "set_existing" | "put_hit" | "ensure_hit");
     let in_last = matches!(case.scenario.as_str(), "get_hit_last_level" | "ensure_promote");
     if in_write {
         world::plant(&wpath, &a.bytes(), 0o444, old - 120_000_000_000, old);
@@ -93,8 +95,8 @@ fn observe(case: &Case, size: usize) -> Obs {
         let p = dirs.reads.last().map(|r| r.join("key")).unwrap_or(wpath.clone());
         world::plant(&p, &a.bytes(), 0o444, old - 120_000_000_000, old);
     }
-    if case.checker {
-        // a second, identical copy in every read level so that the checker has work to do
+    if case.checker || everywhere {
+        // an identical copy in every read level (work for the checker; without one, later copies must not even be opened)
         for r in &dirs.reads {
             if world::lstat(&r.join("key")).is_none() && (in_write || in_last) {
                 world::plant(&r.join("key"), &a.bytes(), 0o444, old - 120_000_000_000, old);
@@ -110,8 +112,8 @@ fn observe(case: &Case, size: usize) -> Obs {
     let cache = ops::build(&cfg, &dirs, None);
     let c = Val::one(2);
     let op = match case.scenario.as_str() {
-        "get_hit" | "get_miss" | "get_hit_last_level" => Op::Get(k),
-        "touch_hit" | "touch_miss" => Op::Touch(k),
+        "get_hit" | "get_miss" | "get_hit_last_level" | "get_hit_all_levels" => Op::Get(k),
+        "touch_hit" | "touch_miss" | "touch_hit_all_levels" => Op::Touch(k),
         "set_new" | "set_existing" => Op::Set(k, c),
         "put_insert" | "put_hit" => Op::Put(k, c),
         "set_temp_file" => Op::SetTemp(k, c),
@@ -228,7 +230,10 @@ pub fn run_case(case: &Case, rep: &mut Report) -> Vec<(String, String)> {
         if o.locks > 0 {
             bad.push(("lock-taken".into(), format!("{} locking calls", o.locks)));
         }
-        if matches!(case.scenario.as_str(), "get_hit" | "get_miss" | "get_hit_last_level" | "touch_hit" | "touch_miss") {
+        if matches!(
+            case.scenario.as_str(),
+            "get_hit" | "get_miss" | "get_hit_last_level" | "touch_hit" | "touch_miss" | "get_hit_all_levels" | "touch_hit_all_levels"
+        ) {
             for (d, n) in &o.opens_per_dir {
                 let per_cache_dir = if case.sharded && d.contains("/w/") { 1 } else { 2 };
                 let _ = per_cache_dir;
@@ -265,7 +270,7 @@ fn record(case: &Case, rep: &mut Report) {
 
 pub fn run(_tier: Tier, shard: Shard, rep: &mut Report) {
     rep.rule = "operation scenario {get hit/miss/hit in the last level, touch hit/miss, set new/existing, put insert/hit, ensure \
-        hit/miss/promote, set_temp_file} x write front-end {plain, sharded(3)} x stack depth 1-3 x checker {off, on} with every \
+        hit/miss/promote, set_temp_file, and get/touch/ensure with the key present in every level} x write front-end {plain, sharded(3)} x stack depth 1-3 x checker {off, on} with every \
         directory pre-populated with 0, 10, 100 and 2000 entries (maintenance scripted not to fire): per-kind call counts identical \
         across the four sizes, no readdir, <= 2 open attempts per cache directory per lookup, peak simultaneously open \
         files + directory streams <= 2 (3 with a checker) from the intercepted open/close stream, nothing left open afterwards \
